@@ -7,8 +7,9 @@ open Hap
 /-- one pairing as the property speaks of it -/
 structure Entry where
   u : Uuid
-  /-- identifier bytes it was registered with -/
-  idb : Bytes
+  /-- identifier bytes it was registered with; `none` = unknown to the observer AND to the accessory
+      (a controller imported from a state file that does not record identifier bytes) -/
+  idb : Option Bytes
   key : Bytes
   perm : Nat
 deriving DecidableEq, Repr
@@ -48,7 +49,7 @@ def observeReq (parse : Bytes → Option Uuid) (a : Abs) (body : Bytes) : Abs :=
         match aget objs tUser, aget objs tPub, aget objs tPerm with
         | some idb, some key, some perms =>
           match parse idb, perms with
-          | some u, [p] => a.upsert ⟨u, idb, key, p.toNat⟩
+          | some u, [p] => a.upsert ⟨u, some idb, key, p.toNat⟩
           | _, _ => a
         | _, _, _ => a
       else if rt = 4 then
@@ -68,7 +69,7 @@ def observe (parse : Bytes → Option Uuid) (a : Abs) (op : Op) (resp : Resp) : 
   else match op with
     | .setup idb key =>
       match parse idb with
-      | some u => a.upsert ⟨u, idb, key, 1⟩
+      | some u => a.upsert ⟨u, some idb, key, 1⟩
       | none => a
     | .req r => observeReq parse a r.body
 
@@ -85,7 +86,7 @@ def fPerm (e : Entry) : Uuid × Nat := (e.u, e.perm)
 structure Rel (parse : Bytes → Option Uuid) (s : PState) (a : Abs) : Prop where
   paired : s.paired = a.map fKey
   props : s.props = a.map fPerm
-  ids : ∀ e ∈ a, aget s.u2b e.u = some e.idb ∧ parse e.idb = some e.u
+  ids : ∀ e ∈ a, aget s.u2b e.u = e.idb ∧ ∀ b, e.idb = some b → parse b = some e.u
   nodup : (a.map (·.u)).Nodup
 
 theorem rel_empty (parse : Bytes → Option Uuid) : Rel parse PState.empty [] :=
@@ -176,21 +177,22 @@ theorem aget_fPerm (a : Abs) (x : Entry) (hn : (a.map (·.u)).Nodup) (h : x ∈ 
 theorem rel_add (parse : Bytes → Option Uuid) (s : PState) (a : Abs) (h : Rel parse s a)
     (u : Uuid) (idb key : Bytes) (p : Nat) (hp : parse idb = some u) :
     Rel parse { u2b := aset s.u2b u idb, paired := aset s.paired u key, props := aset s.props u p }
-      (a.upsert ⟨u, idb, key, p⟩) := by
-  have e1 := aset_fKey a ⟨u, idb, key, p⟩
-  have e2 := aset_fPerm a ⟨u, idb, key, p⟩
+      (a.upsert ⟨u, some idb, key, p⟩) := by
+  have e1 := aset_fKey a ⟨u, some idb, key, p⟩
+  have e2 := aset_fPerm a ⟨u, some idb, key, p⟩
   refine ⟨?_, ?_, ?_, ?_⟩
   · simp only [h.paired]; exact e1
   · simp only [h.props]; exact e2
   · intro x hx
     rcases mem_upsert a _ x h.nodup hx with rfl | ⟨hx1, hx2⟩
-    · simp [aget_aset, hp]
-    · have := h.ids x hx1
-      simp only [aget_aset]
+    · refine ⟨by simp [aget_aset], ?_⟩
+      intro b hb; cases hb; exact hp
+    · simp only [aget_aset]
       have : ¬ u = x.u := fun e => hx2 e.symm
-      simp [this, h.ids x hx1]
-  · have : (a.upsert ⟨u, idb, key, p⟩).map (·.u) = akeys (aset (a.map fKey) u key) := by
-      rw [show aset (a.map fKey) u key = (a.upsert ⟨u, idb, key, p⟩).map fKey from e1, keys_map_fKey]
+      simp only [this, if_false]
+      exact h.ids x hx1
+  · have : (a.upsert ⟨u, some idb, key, p⟩).map (·.u) = akeys (aset (a.map fKey) u key) := by
+      rw [show aset (a.map fKey) u key = (a.upsert ⟨u, some idb, key, p⟩).map fKey from e1, keys_map_fKey]
     rw [this, akeys_aset, keys_map_fKey]
     split
     · exact h.nodup
@@ -230,7 +232,7 @@ theorem rel_remove (parse : Bytes → Option Uuid) (s : PState) (a : Abs) (h : R
       simpa [isAdmin, fKey, aget_fPerm _ x hnd hx] using hadm
   have hrem : a.remove u = if (a.erase u).any (fun e => e.perm % 2 = 1) then a.erase u else [] := by
     simp only [Abs.remove, (any_u_iff a u).mpr hin, if_true]
-  have hids : ∀ e ∈ a.erase u, aget (adel s.u2b u) e.u = some e.idb ∧ parse e.idb = some e.u := by
+  have hids : ∀ e ∈ a.erase u, aget (adel s.u2b u) e.u = e.idb ∧ ∀ b, e.idb = some b → parse b = some e.u := by
     intro x hx
     obtain ⟨hx1, hx2⟩ := mem_erase a u x h.nodup hx
     rw [aget_adel_ne _ _ _ (fun e => hx2 e.symm)]
@@ -345,7 +347,7 @@ theorem rel_run (parse : Bytes → Option Uuid) (ops : List Op) (s : PState) (a 
 
 /-- what the property expects a list operation to return for an abstract pairing list -/
 def Abs.listing (a : Abs) : List (Bytes × Bytes × Bool) :=
-  a.map fun e => (e.idb, e.key, decide (e.perm % 2 = 1))
+  a.map fun e => (e.idb.getD (idFallback e.u), e.key, decide (e.perm % 2 = 1))
 
 theorem rel_listing (parse : Bytes → Option Uuid) (hparse : parse [] = none) (s : PState) (a : Abs)
     (h : Rel parse s a) :
@@ -354,10 +356,13 @@ theorem rel_listing (parse : Bytes → Option Uuid) (hparse : parse [] = none) (
   apply List.map_congr_left
   intro x hx
   obtain ⟨h1, h2⟩ := h.ids x hx
-  have hne : x.idb ≠ [] := by intro e; rw [e, hparse] at h2; cases h2
   have hadm : isAdmin s x.u = decide (x.perm % 2 = 1) := by
     simp [isAdmin, h.props, aget_fPerm a x h.nodup hx]
-  simp [fKey, regBytes, h1, hne, hadm]
+  cases hi : x.idb with
+  | none => simp [fKey, regBytes, h1, hi, hadm]
+  | some b =>
+    have hne : b ≠ [] := by intro e; have := h2 b hi; rw [e, hparse] at this; cases this
+    simp [fKey, regBytes, h1, hi, hne, hadm]
 
 theorem rel_isAdmin (parse : Bytes → Option Uuid) (s : PState) (a : Abs) (h : Rel parse s a) (u : Uuid) :
     isAdmin s u = a.any (fun e => e.u = u ∧ e.perm % 2 = 1) := by
@@ -376,6 +381,123 @@ theorem rel_isAdmin (parse : Bytes → Option Uuid) (s : PState) (a : Abs) (h : 
     simpa [isAdmin, h.props, aget_fPerm a x h.nodup hx] using hadm
   · rintro ⟨x, hx, rfl, hp⟩
     simpa [isAdmin, h.props, aget_fPerm a x h.nodup hx] using hp
+
+
+/-! ### the pair-verify back-fill, seen by the observer -/
+
+/-- A controller proved its identity presenting `idb`: if the observer (like the accessory) knows no
+    identifier bytes for it, these are now the recorded ones. Known bytes are never replaced. -/
+def Abs.fill (a : Abs) (u : Uuid) (idb : Bytes) : Abs :=
+  a.map fun e => if e.u = u ∧ e.idb = none then { e with idb := some idb } else e
+
+theorem fill_map_u (a : Abs) (u : Uuid) (idb : Bytes) : (a.fill u idb).map (·.u) = a.map (·.u) := by
+  simp only [Abs.fill, List.map_map]
+  apply List.map_congr_left
+  intro e _
+  simp only [Function.comp]
+  split <;> rfl
+
+theorem fill_fKey (a : Abs) (u : Uuid) (idb : Bytes) : (a.fill u idb).map fKey = a.map fKey := by
+  simp only [Abs.fill, List.map_map]
+  apply List.map_congr_left
+  intro e _
+  simp only [Function.comp, fKey]
+  split <;> rfl
+
+theorem fill_fPerm (a : Abs) (u : Uuid) (idb : Bytes) : (a.fill u idb).map fPerm = a.map fPerm := by
+  simp only [Abs.fill, List.map_map]
+  apply List.map_congr_left
+  intro e _
+  simp only [Function.comp, fPerm]
+  split <;> rfl
+
+/-- the back-fill after a proving exchange keeps the representation -/
+theorem rel_backfill (parse : Bytes → Option Uuid) (s : PState) (a : Abs) (h : Rel parse s a)
+    (u : Uuid) (idb : Bytes) (hp : parse idb = some u) :
+    Rel parse (backfill s u idb).1 (a.fill u idb) := by
+  unfold backfill
+  cases hg : aget s.u2b u with
+  | some b =>
+    have : a.fill u idb = a := by
+      unfold Abs.fill
+      conv => rhs; rw [← List.map_id a]
+      apply List.map_congr_left
+      intro e he
+      have := (h.ids e he).1
+      by_cases heu : e.u = u
+      · rw [heu, hg] at this
+        simp [heu, ← this]
+      · simp [heu]
+    rw [this]; exact h
+  | none =>
+    refine ⟨?_, ?_, ?_, ?_⟩
+    · simp only [fill_fKey]; exact h.paired
+    · simp only [fill_fPerm]; exact h.props
+    · intro x hx
+      simp only [Abs.fill, List.mem_map] at hx
+      obtain ⟨e, he, rfl⟩ := hx
+      obtain ⟨i1, i2⟩ := h.ids e he
+      by_cases hc : e.u = u ∧ e.idb = none
+      · simp only [hc, and_self, if_true, aget_aset]
+        refine ⟨by simp, ?_⟩
+        intro b hb; cases hb; exact hp
+      · simp only [hc, if_false, aget_aset]
+        have hne : ¬ u = e.u := by
+          intro heq
+          apply hc
+          refine ⟨heq.symm, ?_⟩
+          rw [← i1, ← heq, hg]
+        simp only [hne, if_false]
+        exact ⟨i1, i2⟩
+    · rw [fill_map_u]; exact h.nodup
+
+/-! ### every well-formed state represents some observer list (start states loaded from a file) -/
+
+/-- the pairing list a state holds, read off its maps -/
+def absOf (s : PState) : Abs :=
+  s.paired.map fun e => ⟨e.1, aget s.u2b e.1, e.2, (aget s.props e.1).getD 0⟩
+
+theorem assoc_eq_of_nodup {V : Type} (l : List (Uuid × V)) (d : V) (h : (akeys l).Nodup) :
+    l = (akeys l).map fun k => (k, (aget l k).getD d) := by
+  induction l with
+  | nil => rfl
+  | cons x r ih =>
+    obtain ⟨k, v⟩ := x
+    simp only [akeys, List.map_cons, List.nodup_cons] at h
+    have ih' := ih h.2
+    simp only [akeys, List.map_cons, aget, if_true, Option.getD_some, List.cons.injEq, true_and]
+    conv => lhs; rw [ih']
+    simp only [akeys, List.map_map]
+    apply List.map_congr_left
+    intro e he
+    have : k ≠ e.1 := by
+      intro heq; apply h.1; rw [heq]; exact List.mem_map.mpr ⟨e, he, rfl⟩
+    simp [Function.comp, this]
+
+/-- A state whose `paired_clients` and `client_properties` have the same keys (each once) and whose
+    recorded identifier bytes name their controller represents the list `absOf s` — e.g. whatever
+    `load_into` produced from a current or a legacy state file. -/
+theorem rel_absOf (parse : Bytes → Option Uuid) (s : PState) (hal : Aligned s) (hn : (akeys s.paired).Nodup)
+    (hid : ∀ u b, u ∈ akeys s.paired → aget s.u2b u = some b → parse b = some u) :
+    Rel parse s (absOf s) := by
+  refine ⟨?_, ?_, ?_, ?_⟩
+  · simp only [absOf, List.map_map]
+    conv => lhs; rw [← List.map_id s.paired]
+    apply List.map_congr_left
+    intro e _; rfl
+  · have hp : (akeys s.props).Nodup := by rw [← hal]; exact hn
+    conv => lhs; rw [assoc_eq_of_nodup s.props 0 hp, ← hal]
+    simp only [absOf, akeys, List.map_map]
+    apply List.map_congr_left
+    intro e _; rfl
+  · intro x hx
+    simp only [absOf, List.mem_map] at hx
+    obtain ⟨e, he, rfl⟩ := hx
+    refine ⟨rfl, ?_⟩
+    intro b hb
+    exact hid e.1 b (List.mem_map.mpr ⟨e, he, rfl⟩) hb
+  · simp only [absOf, List.map_map]
+    exact hn
 
 theorem runBoth_fst (parse : Bytes → Option Uuid) (ops : List Op) (s : PState) (a : Abs) :
     (runBoth parse s a ops).1 = run parse s ops := by
